@@ -336,10 +336,7 @@ const fn sort_two_yx(p1: Point, p2: Point) -> (Point, Point) {
 
 /// Verification hook: `Triangle::scanline_intersection` for row `y`.
 #[cfg(embedded_graphics_verif)]
-pub(in crate::primitives) fn verif_scanline_at(
-    triangle: &Triangle,
-    y: i32,
-) -> Scanline {
+pub(in crate::primitives) fn verif_scanline_at(triangle: &Triangle, y: i32) -> Scanline {
     triangle.scanline_intersection(y)
 }
 
